@@ -272,7 +272,21 @@ type cmap4Iter struct {
 }
 
 func (it *cmap4Iter) Next() bool {
-	return it.pos1 < len(it.data)
+	// skip the entries of indexed segments mapped to the missing glyph,
+	// which are not reported by Lookup either
+	for it.pos1 < len(it.data) {
+		entry := it.data[it.pos1]
+		if entry.indexes == nil || entry.indexes[it.pos2] != 0 {
+			return true
+		}
+		if it.pos2 == len(entry.indexes)-1 {
+			it.pos2 = 0
+			it.pos1++
+		} else {
+			it.pos2++
+		}
+	}
+	return false
 }
 
 func (it *cmap4Iter) Char() (r rune, gy GID) {
@@ -663,6 +677,21 @@ func (cm cmap4) RuneRanges(dst [][2]rune) [][2]rune {
 	dst = dst[:0]
 	for _, e := range cm {
 		start, end := rune(e.start), rune(e.end)
+		if e.indexes != nil {
+			// entries mapped to the missing glyph are not part of the coverage
+			for i, gid := range e.indexes {
+				if gid == 0 {
+					continue
+				}
+				r := start + rune(i)
+				if L := len(dst); L != 0 && dst[L-1][1]+1 == r {
+					dst[L-1][1] = r
+				} else {
+					dst = append(dst, [2]rune{r, r})
+				}
+			}
+			continue
+		}
 		if L := len(dst); L != 0 && dst[L-1][1] == start {
 			// grow the previous range
 			dst[L-1][1] = end
